@@ -892,6 +892,15 @@ def prefix_cmd_family(seed, n):
 
 
 # ---------------------------------------------------------------- help / documentation (C12, C16)
+def more(it, rnd):
+    """a second paragraph for a help text (`help_more`) and cut points (character offsets into first + blank line + second)
+    at word starts: the builder hands bpaf a Doc of fragments with alternating styles"""
+    it["help_more"] = "second paragraph of " + it["help"].lower().replace("help-", "zq") + " with words"
+    full = it["help"] + "\n\n" + it["help_more"]
+    starts = [i for i in range(1, len(full)) if full[i - 1] in " \n" and full[i] not in " \n"]
+    it["help_cuts"] = sorted({rnd.choice(starts) for _ in range(rnd.randint(1, 3))})
+
+
 def decorate_for_help(d, rnd, hostile=None):
     """hidden parts, usage decorations, group headers and level texts; the item lists must not care"""
     n = 0
@@ -927,11 +936,21 @@ def decorate_for_help(d, rnd, hostile=None):
                     for b in f["branches"]:
                         if len(b["fields"]) > 1:
                             b["fields"][0]["hidden"] = True
+        # some help texts have a second paragraph and reach bpaf as a Doc of several styled fragments
+        for f in lvl["named"]:
+            for it in field_leaves(f):
+                if rnd.random() < 0.25:
+                    more(it, rnd)
         t = lvl["tail"]
         if t["kind"] == "pos":
             for p in t["items"]:
                 p["help"] = f"HELP-{tag}-{p['id']}"
                 p["metavar"] = f"MV{n}{p['id'].upper()}"
+                if rnd.random() < 0.25:
+                    more(p, rnd)
+                # a positional (strict or not) under a header of its own
+                if rnd.random() < 0.3:
+                    p["group_help"] = f"GROUP-{tag}-{p['id']}"
         if t["kind"] == "cmd":
             for c in t["cmds"]:
                 c["help"] = f"HELP-{tag}-cmd-{c['names'][0]}"
